@@ -4,7 +4,7 @@
 Require Extraction.
 Require Import ExtrOcamlBasic.
 From Similar Require Import Model.Base Model.Utils Model.Myers Model.Lcs Model.Hooks
-     Model.Patience Model.Compact Model.Capture Model.Iter Spec.Script Spec.Group Check.Script Proofs.Iter.
+     Model.Patience Model.Compact Model.Capture Model.Iter Model.Utf8 Model.Tokenize Model.TextDiff Model.Inline Spec.Patch Spec.Script Spec.Group Check.Script Check.Tokens Proofs.Iter.
 
 
 Extraction "../ocaml/model.ml"
@@ -16,4 +16,8 @@ Extraction "../ocaml/model.ml"
   clock_at cmp_of slice_lookup offset_lookup capture_calls op_to_call
   check_raw check_finish_last check_ops_loose check_ops_exact check_normal
   check_alternating check_insert_latest deleted inserted equal_total lcs_len check_minimal
-  expand_op expand_all group_ref check_groups.
+  expand_op expand_all group_ref check_groups
+  decode valid_utf8 is_whitespace lossy len_utf8 tokenize tok_bytes ends_with_newline
+  textdiff_ops newline_flag bytes_eqb oracles_of_items render_udiff remap_indexes remap_ops
+  inline_changes check_patch apply_strict hunk_shape_ok
+  check_partition check_tokens.
